@@ -38,8 +38,8 @@
 //   - requirements.txt: only `==` pins (what a frozen requirements file lists); range
 //     operators, `name @ url`, env-vars, `-r` includes that add packages: never generated.
 //     The `-r` target exists and holds only a comment.
-//   - go.mod: `go` < 1.17 (go.sum merging), same module path required twice, two effective
-//     replace directives for one module version: never generated. A local-path replacement is
+//   - go.mod: `go` < 1.17 (go.sum merging), same module path required twice, two replace
+//     directives with the same left side (go rejects them): never generated. A local-path replacement is
 //     expected as (path, "") as documented by gomod_test.go "replacements_ local".
 //   - Gemfile.lock: the same gem for two platforms: never generated. One platform-suffixed
 //     spec `nokogiri (1.13.3-x86_64-linux)` is generated with ground truth version 1.13.3,
@@ -101,6 +101,9 @@ type dim struct {
 	name   string
 	kind   dimKind
 	labels []string // fixed: value labels; posIdx: kind labels (len = kinds)
+	// slot groups interchangeable positional dimensions (a sequence of like items): the cause key
+	// lists their values in order as <slot>[a,b] instead of naming the individual positions.
+	slot string
 }
 
 func (d dim) size(n int) int {
@@ -424,8 +427,18 @@ func minimise(f *format, recs []rec, lay []int) ([]rec, []int, []string) {
 
 func layoutLabels(f *format, lay []int) []string {
 	var out []string
+	slots := map[string][]string{}
+	var slotOrder []string
 	for i, d := range f.dims {
 		if lay[i] == 0 {
+			continue
+		}
+		if d.slot != "" && d.kind == posIdx {
+			_, k := pos(d, lay[i])
+			if _, ok := slots[d.slot]; !ok {
+				slotOrder = append(slotOrder, d.slot)
+			}
+			slots[d.slot] = append(slots[d.slot], d.labels[k])
 			continue
 		}
 		switch d.kind {
@@ -437,6 +450,9 @@ func layoutLabels(f *format, lay []int) []string {
 		case count:
 			out = append(out, d.name)
 		}
+	}
+	for _, sl := range slotOrder {
+		out = append(out, sl+"["+strings.Join(slots[sl], ",")+"]")
 	}
 	return out
 }
